@@ -43,7 +43,7 @@ theorem svcNew_nil_some {P : Topo → Prop} (hP : AttachStable P) (fl : Flavour)
   simp only []
   refine ro_step (Q := fun r => P r.2 ∧ ∀ v : Nid × Cache, r.1 = .ok v → WithSvc P v.1 r.2) (readOnly_need _ _)
     (fun _ => ⟨h, fun v hv => by cases hv⟩) (fun t h1 => ?_)
-  have htt : a.nstype = some t := need_ok ⟨_, h1⟩
+  have htt : a.nstype = some t := need_some ⟨_, h1⟩
   refine ro_step (Q := fun r => P r.2 ∧ ∀ v : Nid × Cache, r.1 = .ok v → WithSvc P v.1 r.2) (readOnly_guard _ _)
     (fun _ => ⟨h, fun v hv => by cases hv⟩) (fun _ _ => ?_)
   refine ro_step (Q := fun r => P r.2 ∧ ∀ v : Nid × Cache, r.1 = .ok v → WithSvc P v.1 r.2) (readOnly_need _ _)
@@ -160,7 +160,7 @@ theorem compositeCall_drop {P : Topo → Prop} (hP : CompositeStable P) (hdrop :
     (hbody : ∀ n c1 s1, P s1 → ParentOk s1 (some n) → P (body n c1 s1).2) :
     P ((addNode fl c args >>= fun x => match x with
       | (n, c1) => composite n (body n c1) >>= fun _ => Pure.pure n) s).2 := by
-  rcases addNode_cases fl c args s with ⟨e, he⟩ | ⟨n, v, hf, hc, hnt, hnn, hnames, hv1, hr⟩
+  rcases addNode_post fl c args s with ⟨e, he⟩ | ⟨n, v, hf, hc, hnt, hnn, hnames, hv1, hr⟩
   · rw [bind_err he]; exact h
   · rw [bind_ok hr]
     obtain ⟨facn, c1⟩ := v
@@ -177,7 +177,7 @@ theorem compositeCall_ok {P : Topo → Prop} (hP : CompositeStable P) (fl : Flav
     (hok : (addNode fl c args >>= fun x => match x with
       | (n, c1) => composite n (body n c1) >>= fun _ => Pure.pure n) s = (.ok r, s')) : P s' := by
   obtain ⟨v, s1, hadd, hok⟩ := bind_ok_inv hok
-  rcases addNode_cases fl c args s with ⟨e, he⟩ | ⟨n, v', hf, hc, hnt, hnn, hnames, hv1, hr⟩
+  rcases addNode_post fl c args s with ⟨e, he⟩ | ⟨n, v', hf, hc, hnt, hnn, hnames, hv1, hr⟩
   · rw [he] at hadd; simp at hadd
   · rw [hr] at hadd
     simp only [Prod.mk.injEq, Except.ok.injEq] at hadd
